@@ -129,3 +129,73 @@ Theorem C18_lower_bounds :
   /\ ((forall reply, res <> Ok (Some reply)) -> after_read evs = []).
 Proof. exact SerialP.C18_lower_bounds. Qed.
 Print Assumptions C18_lower_bounds.
+
+(* ---------- across a whole conversation: "does not write the NEXT message until ..." ---------- *)
+(* [serial_trace ms p]: everything a conversation (one exchange after another on one port) does, in order. *)
+Check eq_refl : serial_trace =
+  fix serial_trace (ms : list msg) (p : port) : option (list sev) :=
+    match ms with
+    | [] => Some []
+    | m :: ms' =>
+        match serial_process m p with
+        | None => None
+        | Some (_, p', evs) =>
+            match serial_trace ms' p' with
+            | None => None
+            | Some t => Some (evs ++ t)
+            end
+        end
+    end.
+(* Time certainly slept from here up to the next write (or the end of the trace). *)
+Check eq_refl : quiet =
+  fix quiet (evs : list sev) : N :=
+    match evs with
+    | [] => 0
+    | EvWrite _ :: _ => 0
+    | EvSleep ms :: t => ms + quiet t
+    | EvRead _ :: t => quiet t
+    end.
+(* For every write of a trace: the bytes it delivered and the time slept before the next write. *)
+Check eq_refl : write_gaps =
+  fix write_gaps (evs : list sev) : list (list N * N) :=
+    match evs with
+    | [] => []
+    | EvWrite bs :: t => (bs, quiet t) :: write_gaps t
+    | _ :: t => write_gaps t
+    end.
+
+(* Every message of a conversation accounts for exactly one write.  If the write was cut short nothing is slept before
+   the next write; if the whole frame went out, what is slept before the next write is this message's own send delay
+   plus 0 or 100 ms (the post-receive delay of its reply) and nothing else. *)
+Theorem C18_conversation_gaps :
+  forall ms p t, serial_trace ms p = Some t ->
+  Forall2 (fun m g =>
+             (fst g <> encode_nl (frame_of_msg m) ->
+              snd g = 0 /\ exists k, fst g = firstn k (encode_nl (frame_of_msg m)))
+             /\ (fst g = encode_nl (frame_of_msg m) ->
+                 exists r, snd g = odur (delay_after_send m) + r /\ (r = 0 \/ r = 100)))
+          ms (write_gaps t).
+Proof. exact SerialP.serial_trace_gaps. Qed.
+Print Assumptions C18_conversation_gaps.
+
+(* After a data chunk has gone out, at least 30 ms are slept before the next write, whichever message that is and
+   whatever happens in between; after any other message, 0 or exactly 100 ms. *)
+Theorem C18_next_write_paced :
+  forall ms p t, serial_trace ms p = Some t ->
+  Forall2 (fun m g => (exists o d, m = SendData o d) -> fst g = encode_nl (frame_of_msg m) -> 30 <= snd g)
+          ms (write_gaps t)
+  /\ Forall2 (fun m g => (~ exists o d, m = SendData o d) -> snd g = 0 \/ snd g = 100) ms (write_gaps t).
+Proof. exact SerialP.serial_trace_data_chunk_gap. Qed.
+Print Assumptions C18_next_write_paced.
+
+Example C18_ex_conversation :
+  option_map write_gaps
+    (serial_trace [SendData 0 [1]; Hello 3; SendData 16 [2]; QueryState 3]
+       {| pt_in := {| r_content := encode_nl (frame_of_msg (ReportState 3 Unconfigured)) ++ reply_bytes;
+                      r_sched := [] |};
+          pt_out := {| w_out := []; w_sched := [] |} |})
+  = Some [(encode_nl (frame_of_msg (SendData 0 [1])), 30);
+          (encode_nl (frame_of_msg (Hello 3)), 0);
+          (encode_nl (frame_of_msg (SendData 16 [2])), 30);
+          (encode_nl (frame_of_msg (QueryState 3)), 100)].
+Proof. vm_compute. reflexivity. Qed.
